@@ -82,6 +82,24 @@ example :
       ∧ r.2.length = 170 := by
   decide +kernel
 
+/-- **Every run is finite, repaired code.**  A *strict* run ticks only components and connections that
+    have a pending tick (what an engine does).  Its length is bounded by the explicit measure
+    `M = Φ · (N + 1) + #awake` of the initial state, where the potential `Φ` charges every unit of work
+    for the steps it still has to take (dispatch, two port hops, execution of each instruction,
+    completion report, two port hops back) — `Φ` strictly decreases on every tick that reports
+    progress, a tick without progress changes nothing but puts its component to sleep.  Together with
+    `terminates_all_idle`: the engine's queue always runs empty, and when it does the run is finished. -/
+theorem terminates_run_finite (G S C : Nat) (trace : List Kernel) (evs : List Ev)
+    (hr : ∀ e ∈ evs, e.InRange G S C) (hs : Strict (init false G S C trace) evs) :
+    evs.length ≤ M (init false G S C trace) :=
+  strict_run_bounded' G S C trace evs hr hs
+
+/-- the fair round-robin schedule (63 events here) is strict and in range -/
+example :
+    let r := rounds 30 (init false 1 2 2 [[[0, 3], []], []], [])
+    Strict (init false 1 2 2 [[[0, 3], []], []]) r.2 ∧ (∀ e ∈ r.2, e.InRange 1 2 2) ∧ 0 < r.2.length := by
+  decide +kernel
+
 /-- the 14 events the engine handles on the pre-fix code for one block with warps {0, 5} on one SM
     with two sub-cores (same order as the real serial engine; reproduced on the real code at t = 7) -/
 def legacySchedule : List Ev := (rounds 20 (init true 1 1 2 [[[0, 5]]], [])).2
